@@ -1748,3 +1748,611 @@ Proof.
         -- right. apply (IH pairs'); auto.
   - unfold spec_mkfun. rewrite Evs in *. destruct vs' as [|v2 vs'']; cbn [map] in *; rewrite HA; reflexivity.
 Qed.
+
+(* ------------------------------------------------------------------ Seq, SelectSeq (known findings) *)
+(* Seq(S) is the set of all finite sequences over S.  The runtime cannot represent it; the full
+   statement "every sequence over S is a member of the result" is refuted by the code. *)
+Definition seq_full_statement : Prop :=
+  forall xs r, ModuleSeq (VSet xs) = Ok (VSet r) ->
+  forall t, (forall x, In x t -> In x xs) -> exists y, In y r /\ canon y = canon (VTup t).
+
+Theorem seq_refuted_lemma : ~ seq_full_statement.
+Proof.
+  intros H. specialize (H [VNum 1] [VTup [VNum 1]] eq_refl [VNum 1; VNum 1]).
+  destruct H as (y & [<-|[]] & E).
+  - intros x [<-|[<-|[]]]; cbn; auto.
+  - discriminate.
+Qed.
+
+(* what the code does return: the empty sequence for the empty set (correct), and for a
+   non-empty set tuples that are at least sequences over S of length |S| *)
+Theorem seq_empty_lemma : ModuleSeq (VSet []) = Ok (VSet [VTup []]).
+Proof. reflexivity. Qed.
+
+Theorem seq_witness_lemma :
+  ModuleSeq (VSet [VNum 1; VNum 2; VNum 3]) =
+  Ok (VSet [VTup [VNum 1; VNum 2; VNum 3]; VTup [VNum 2; VNum 1; VNum 3]; VTup [VNum 3; VNum 1; VNum 2];
+            VTup [VNum 1; VNum 3; VNum 2]; VTup [VNum 2; VNum 3; VNum 1]; VTup [VNum 3; VNum 2; VNum 1]]).
+Proof. vm_compute. reflexivity. Qed.
+
+(* SelectSeq: every call panics with a non-TLA+ error, which `allowed` never admits *)
+Theorem selectseq_refuted_lemma : forall (R : Prop) s a b, ~ allowed R s (ModuleSelectSeq a b).
+Proof.
+  intros R s a b H. destruct s; cbn in H.
+  - destruct H as [(v' & E & _)|[E _]]; discriminate.
+  - discriminate.
+Qed.
+
+(* ------------------------------------------------------------------ EXCEPT (FunctionSubstitution) *)
+Definition allowed_fine (R : Prop) (s : sres) (r : res value) : Prop :=
+  match s with
+  | SOk v => (exists v', r = Ok v' /\ canon v' = v /\ fine v') \/ (r = TypeErr /\ R)
+  | SErr => r = TypeErr
+  end.
+
+Lemma allowed_fine_allowed R s r : allowed_fine R s r -> allowed R s r.
+Proof.
+  destruct s; cbn; auto. intros [(v' & E & C & F)|H]; auto. left. exists v'. split; auto. split.
+  - rewrite norm_plain by apply F. exact C.
+  - apply fine_good, F.
+Qed.
+
+(* a Go closure `func(anchor Value) Value` computing g of the denoted value, failing loudly where g does *)
+Definition valf_refines (valf : value -> res value) (g : value -> sres) : Prop :=
+  forall v, fine v -> match g (canon v) with
+                      | SOk w => exists r, valf v = Ok r /\ fine r /\ canon r = w
+                      | SErr => valf v = TypeErr
+                      end.
+
+Lemma canon_num a z : canon a = VNum z <-> a = VNum z.
+Proof. destruct a; cbn; split; congruence. Qed.
+
+Lemma supd_list_set l n x : supd l n x = list_set l n x.
+Proof. revert n. induction l as [|y l IH]; intros [|n]; cbn; auto. rewrite IH. reflexivity. Qed.
+
+Lemma map_list_set (f : value -> value) l n x : map f (list_set l n x) = list_set (map f l) n (f x).
+Proof. revert n. induction l as [|y l IH]; intros [|n]; cbn; auto. rewrite IH. reflexivity. Qed.
+
+Lemma list_set_In {A} (l : list A) n x y : In y (list_set l n x) -> In y l \/ y = x.
+Proof.
+  revert n. induction l as [|z l IH]; intros [|n]; cbn; auto.
+  - intros [<-|H]; auto.
+  - intros [<-|H]; auto. destruct (IH n H); auto.
+Qed.
+
+(* ---- function graphs sorted by key ---- *)
+Definition keylt (p q : value * value) : Prop := vcmp (fst p) (fst q) = Lt.
+
+Lemma kvlt_keylt S : StronglySorted kvlt S -> NoDup (map fst S) -> StronglySorted keylt S.
+Proof.
+  induction 1 as [|p S Hs IH Hp]; intros Nd; constructor.
+  - apply IH. inversion Nd; auto.
+  - inversion Nd as [|? ? Hn Nd']; subst. rewrite Forall_forall in *. intros q Hq.
+    specialize (Hp q Hq). unfold kvlt, clt, kv_cmp, pair_cmp, keylt in *. destruct p as [k v], q as [k' v']. cbn in *.
+    destruct (vcmp k k') eqn:E; try congruence.
+    apply vcmp_eq in E. subst k'. exfalso. apply Hn. apply in_map_iff. exists (k, v'). auto.
+Qed.
+
+Lemma keylt_kvlt S : StronglySorted keylt S -> StronglySorted kvlt S.
+Proof.
+  induction 1 as [|p S Hs IH Hp]; constructor; auto.
+  rewrite Forall_forall in *. intros q Hq. specialize (Hp q Hq).
+  unfold kvlt, clt, kv_cmp, pair_cmp, keylt in *. destruct p, q. cbn in *. rewrite Hp. reflexivity.
+Qed.
+
+Lemma graph_set_keys S k nv : map fst (graph_set S k nv) = map fst S.
+Proof. induction S as [|[k' v] S IH]; cbn; auto. destruct (veqb k' k); cbn; f_equal; auto. Qed.
+
+Lemma graph_set_sorted S k nv : StronglySorted keylt S -> StronglySorted keylt (graph_set S k nv).
+Proof.
+  induction 1 as [|[k' v] S Hs IH Hp]; cbn; [constructor|].
+  destruct (veqb k' k).
+  - constructor; auto.
+  - constructor; auto. rewrite Forall_forall in *. intros q Hq.
+    assert (In (fst q) (map fst (graph_set S k nv))) as Hk by (apply in_map; auto).
+    rewrite graph_set_keys in Hk. apply in_map_iff in Hk as (q' & E & Hq'). specialize (Hp q' Hq').
+    unfold keylt in *. cbn in *. rewrite <- E. exact Hp.
+Qed.
+
+Lemma graph_set_In S k nv p : NoDup (map fst S) ->
+  (In p (graph_set S k nv) <-> (In p S /\ fst p <> k) \/ (p = (k, nv) /\ In k (map fst S))).
+Proof.
+  induction S as [|[k' v] S IH]; cbn; intros Nd; [tauto|].
+  inversion Nd as [|? ? Hn Nd']; subst.
+  destruct (veqb k' k) eqn:E.
+  - apply veqb_eq in E. subst k'. cbn. split.
+    + intros [<-|Hin]; [right; auto|]. left. split; auto. intros Hc. apply Hn. rewrite <- Hc. apply in_map. exact Hin.
+    + intros [[[<-|Hin] Hne]|[-> _]]; auto. cbn in Hne. congruence.
+  - apply veqb_false in E. cbn. rewrite IH by auto. split.
+    + intros [<-|[[Hin Hne]|[-> Hin]]]; auto.
+    + intros [[[<-|Hin] Hne]|[-> [Hc|Hin]]]; auto. congruence.
+Qed.
+
+Lemma kvsort_unique l L : StronglySorted kvlt L -> (forall p, In p L <-> In p l) -> sort_dedup kv_cmp l = L.
+Proof.
+  intros HL Hm. apply (sorted_unique kv_cmp kv_cmp_eq kv_cmp_trans); auto.
+  - apply kvsort_sorted.
+  - intros p. rewrite kvsort_In. symmetry. apply Hm.
+Qed.
+
+Lemma is_seq_dom_keys l l' : map fst l = map fst l' -> is_seq_dom l = is_seq_dom l'.
+Proof.
+  intros E. unfold is_seq_dom. rewrite E.
+  assert (List.length l = List.length l') as -> by (rewrite <- (map_length fst l), E, map_length; reflexivity).
+  reflexivity.
+Qed.
+
+Lemma fun_get_lookup kvs x : fine (VFun kvs) -> fine x ->
+  match fun_get kvs x with
+  | Some v => fine v /\ lookup (sort_dedup kv_cmp (map ckv kvs)) (canon x) = Some (canon v)
+  | None => lookup (sort_dedup kv_cmp (map ckv kvs)) (canon x) = None
+  end.
+Proof.
+  intros Ff Fx. destruct (fine_fun kvs Ff) as (Hk & Nd & _).
+  destruct (fun_get kvs x) as [v|] eqn:Eg.
+  - apply fun_get_Some in Eg as (k & Hin & Ek). destruct (Hk k v Hin) as [Fk Fv]. split; auto.
+    apply C05.Proofs.Equal_spec_lemma in Ek; [|apply Fk|apply Fx].
+    apply lookup_In; [apply sorted_keys_NoDup; auto|]. rewrite kvsort_In. rewrite <- Ek.
+    apply in_map_iff. exists (k, v). auto.
+  - apply lookup_None. intros Hin. apply in_map_iff in Hin as ([ck cv] & E & Hin). cbn in E. subst ck.
+    rewrite kvsort_In in Hin. apply in_map_iff in Hin as ([k v] & [= E1 E2] & Hin).
+    pose proof (fun_get_None kvs x Eg k) as Hf.
+    assert (Equal k x = true); [|rewrite Hf in H; [discriminate|apply in_map_iff; exists (k, v); auto]].
+    destruct (Hk k v Hin) as [Fk _]. apply C05.Proofs.Equal_spec_lemma; [apply Fk|apply Fx|auto].
+Qed.
+
+Lemma except_fun_step kvs k nv : fine (VFun kvs) -> fine k -> fine nv -> fun_get kvs k <> None ->
+  fine (VFun (fun_add kvs k nv)) /\
+  canon (VFun (fun_add kvs k nv)) = VFun (graph_set (sort_dedup kv_cmp (map ckv kvs)) (canon k) (canon nv)).
+Proof.
+  intros Ff Fk Fnv Hget. destruct (fine_fun kvs Ff) as (Hk & Nd & _).
+  set (S := sort_dedup kv_cmp (map ckv kvs)).
+  assert (NS : NoDup (map fst S)) by (apply sorted_keys_NoDup; auto).
+  assert (Rkeys : forall y, In y (map fst kvs) -> rep_ok y).
+  { intros y Hy. apply in_map_iff in Hy as ([a b] & <- & Hp). apply (Hk a b Hp). }
+  assert (Hin_k : In (canon k) (map fst S)).
+  { pose proof (fun_get_lookup kvs k Ff Fk) as HL. destruct (fun_get kvs k) as [v|]; [|congruence].
+    destruct HL as [_ HL]. apply lookup_In in HL; auto. apply in_map_iff. exists (canon k, canon v). auto. }
+  assert (Ecanon : sort_dedup kv_cmp (map ckv (fun_add kvs k nv)) = graph_set S (canon k) (canon nv)).
+  { apply kvsort_unique.
+    - apply keylt_kvlt, graph_set_sorted, kvlt_keylt; auto. apply kvsort_sorted.
+    - intros p. rewrite graph_set_In by auto. rewrite <- ckvp_ckv.
+      rewrite (fun_add_pairs kvs k nv Rkeys (proj1 Fk) Nd). unfold S. rewrite kvsort_In, ckvp_ckv. tauto. }
+  split; [|cbn [canon]; f_equal; exact Ecanon].
+  destruct (fun_add_rep kvs k nv (fine_pairs_rep kvs Hk) (proj1 Fk) (proj1 Fnv) Nd) as [Rr Nr].
+  assert (Hel : forall a b, In (a, b) (fun_add kvs k nv) -> fine a /\ fine b).
+  { intros a b Hin. apply fun_add_In in Hin as [Hin|[= -> ->]]; auto. }
+  split; [|split].
+  - split; auto. apply All_In. intros [a b] Hin. destruct (Hel a b Hin) as [(Ra & _) (Rb & _)]. cbn. auto.
+  - cbn. apply All_In. intros [a b] Hin. destruct (Hel a b Hin) as [(_ & Ba & _) (_ & Bb & _)]. cbn. auto.
+  - split.
+    + apply All_In. intros [a b] Hin. destruct (Hel a b Hin) as [(_ & _ & Pa) (_ & _ & Pb)]. cbn. auto.
+    + change (map (canon_kv canon) (fun_add kvs k nv)) with (map ckv (fun_add kvs k nv)). rewrite Ecanon.
+      rewrite (is_seq_dom_keys _ S) by apply graph_set_keys.
+      destruct Ff as (_ & _ & _ & Ps). exact Ps.
+Qed.
+
+Lemma fine_tup_elems xs : fine (VTup xs) -> forall x, In x xs -> fine x.
+Proof.
+  intros (R & B & P) x Hx. cbn in R, B, P. rewrite All_In in R, B, P. repeat split; auto.
+Qed.
+
+Lemma except1_lemma valf g : valf_refines valf g -> forall keys src,
+  fine src -> (forall k, In k keys -> fine k) ->
+  allowed_fine (snd (spec_except1 (canon src) (map canon keys) g) = true)
+               (fst (spec_except1 (canon src) (map canon keys) g)) (keysHelper src keys valf).
+Proof.
+  intros Hv. induction keys as [|k rest IH]; intros src Fs Fk.
+  - cbn. specialize (Hv src Fs). destruct (g (canon src)); cbn; auto.
+    destruct Hv as (r & E & F & C). left. exists r. auto.
+  - assert (Fk0 : fine k) by (apply Fk; cbn; auto).
+    assert (Frest : forall k', In k' rest -> fine k') by (intros; apply Fk; cbn; auto).
+    destruct src as [| b | z | s | xs | xs | kvs]; try reflexivity.
+    + (* tuple *)
+      cbn [canon map spec_except1 keysHelper]. rewrite map_length.
+      destruct (is_num k) as [[i ->]|Hk].
+      * cbn [canon AsNumber bind].
+        destruct ((1 <=? i) && (i <=? Z.of_nat (List.length xs))) eqn:Eb; cbn [require bind].
+        -- rewrite nth_error_map.
+           destruct (nth_error xs (Z.to_nat (i - 1))) as [v|] eqn:En; [|exfalso; apply nth_error_None in En; lia].
+           cbn [option_map].
+           assert (Fv : fine v) by (apply (fine_tup_elems xs Fs); eapply nth_error_In; eauto).
+           specialize (IH v Fv Frest).
+           destruct (spec_except1 (canon v) (map canon rest) g) as [r o]. cbn [fst snd] in *.
+           destruct r as [w|]; cbn [sbind allowed_fine] in *.
+           ++ destruct IH as [(nv & -> & C & Fnv)|[-> Ho]]; cbn [bind]; [left|right; auto].
+              exists (VTup (list_set xs (Z.to_nat (i - 1)) nv)). split; auto. split.
+              ** cbn [canon]. rewrite map_list_set, supd_list_set, C. reflexivity.
+              ** apply fine_tup. intros y Hy. apply list_set_In in Hy as [Hy| ->]; auto. apply (fine_tup_elems xs Fs); auto.
+           ++ rewrite IH. reflexivity.
+        -- cbn. right. auto.
+      * assert (AsNumber k = TypeErr) as -> by (destruct k; try reflexivity; exfalso; eapply Hk; reflexivity).
+        cbn [bind]. destruct (canon k) eqn:E; try reflexivity. apply (proj1 (canon_num _ _)) in E. exfalso. eapply Hk. exact E.
+    + (* function *)
+      destruct (fine_fun kvs Fs) as (Hkv & Nd & _).
+      change (canon (VFun kvs)) with (VFun (sort_dedup kv_cmp (map ckv kvs))).
+      cbn [map spec_except1 keysHelper].
+      pose proof (fun_get_lookup kvs k Fs Fk0) as HL.
+      destruct (fun_get kvs k) as [v|] eqn:Eg.
+      * destruct HL as [Fv ->]. specialize (IH v Fv Frest).
+        destruct (spec_except1 (canon v) (map canon rest) g) as [r o]. cbn [fst snd] in *.
+        destruct r as [w|]; cbn [sbind allowed_fine] in *.
+        -- destruct IH as [(nv & -> & C & Fnv)|[-> Ho]]; cbn [bind]; [left|right; auto].
+           destruct (except_fun_step kvs k nv Fs Fk0 Fnv) as [Fr Cr]; [congruence|].
+           exists (VFun (fun_add kvs k nv)). split; auto. split; auto. rewrite Cr, C. reflexivity.
+        -- rewrite IH. reflexivity.
+      * rewrite HL. cbn. right. auto.
+Qed.
+
+(* the Go record {Keys, Value} and its spec counterpart *)
+Definition sub_refines (isub : list value * (value -> res value)) (ssub : list value * (value -> sres)) : Prop :=
+  fst ssub = map canon (fst isub) /\ (forall k, In k (fst isub) -> fine k) /\ valf_refines (snd isub) (snd ssub).
+
+Lemma except_fine isubs : forall ssubs src, Forall2 sub_refines isubs ssubs -> fine src ->
+  allowed_fine (snd (spec_except (canon src) ssubs) = true) (fst (spec_except (canon src) ssubs))
+               (FunctionSubstitution src isubs).
+Proof.
+  induction isubs as [|[keys valf] isubs IH]; intros ssubs src HF Fs; inversion HF as [|? [skeys g] ? ssubs' Hr HF']; subst.
+  - cbn. left. exists src. auto.
+  - destruct Hr as (Ek & Fk & Hv). cbn in Ek, Fk, Hv. subst skeys.
+    cbn [spec_except FunctionSubstitution].
+    pose proof (except1_lemma valf g Hv keys src Fs Fk) as H1.
+    destruct (spec_except1 (canon src) (map canon keys) g) as [r o]. cbn [fst snd] in H1.
+    destruct r as [w|]; cbn [allowed_fine] in H1.
+    + destruct H1 as [(v' & -> & C & Fv')|[-> Ho]]; cbn [bind].
+      * specialize (IH ssubs' v' HF' Fv'). rewrite C in IH.
+        destruct (spec_except w ssubs') as [r' o']. cbn [fst snd] in *.
+        destruct r'; cbn [allowed_fine] in *.
+        -- destruct IH as [H|[E Ho']]; auto. right. split; auto. rewrite Ho'. apply orb_true_r.
+        -- exact IH.
+      * destruct (spec_except w ssubs') as [r' o']. cbn [fst snd]. subst o.
+        destruct r'; cbn; auto.
+    + rewrite H1. reflexivity.
+Qed.
+
+Theorem except_lemma src isubs ssubs : fine src -> Forall2 sub_refines isubs ssubs ->
+  allowed (snd (spec_except (norm src) ssubs) = true) (fst (spec_except (norm src) ssubs))
+          (FunctionSubstitution src isubs).
+Proof.
+  intros Fs HF. rewrite (norm_plain src) by apply Fs. apply allowed_fine_allowed, except_fine; auto.
+Qed.
+
+(* ------------------------------------------------------------------ [k1 : S1, ..., kn : Sn] and [S -> T] *)
+(* a set whose members need not be plain (functions with domain 1..n are members of [1..n -> T]) *)
+Lemma set_result_norm (R : Prop) res spec_l :
+  (forall y, In y res -> good y) -> NoDup (map canon res) ->
+  (forall c, In c (map norm res) <-> In c spec_l) ->
+  allowed R (SOk (mk_set spec_l)) (Ok (VSet res)).
+Proof.
+  intros Hg Nd Hm. apply allowed_ok.
+  - cbn [norm]. unfold mk_set. f_equal. apply vsort_ext. exact Hm.
+  - split.
+    + split; auto. apply All_In. intros y Hy. apply Hg, Hy.
+    + cbn. apply All_In. intros y Hy. apply Hg, Hy.
+Qed.
+
+Lemma in_sproduct_snoc sets s c :
+  In c (sproduct (sets ++ [s])) <-> exists c0 v, c = c0 ++ [v] /\ In c0 (sproduct sets) /\ In v s.
+Proof.
+  rewrite in_sproduct. split.
+  - intros H. apply Forall2_app_inv_r in H as (c0 & c1 & H0 & H1 & ->).
+    inversion H1 as [|v s' c1' l' Hv Hn]; subst. inversion Hn; subst.
+    exists c0, v. split; auto. split; auto. apply in_sproduct. exact H0.
+  - intros (c0 & v & -> & H0 & Hv). apply Forall2_app; [apply in_sproduct; auto|]. constructor; auto.
+Qed.
+
+(* a record of the accumulated set: a function over exactly the keys processed so far *)
+Definition rec_ok (ckeys : list value) (a : value) : Prop :=
+  exists f, a = VFun f /\ (forall k v, In (k, v) f -> fine k /\ fine v) /\
+            NoDup (map canon (map fst f)) /\
+            (forall c, In c (map canon (map fst f)) <-> In c ckeys).
+
+Definition rec_graph (ckeys ccombo : list value) : list (value * value) := combine ckeys ccombo.
+
+Lemma canon_fun f : canon (VFun f) = VFun (sort_dedup kv_cmp (map ckv f)).
+Proof. reflexivity. Qed.
+
+Lemma fold_set_add_map {A} (h : A -> value) vs : forall out,
+  fold_left (fun o val => set_add o (h val)) vs out = fold_left set_add (map h vs) out.
+Proof. induction vs as [|v vs IH]; intros out; cbn; auto. Qed.
+
+Lemma over_loop key fieldValues accs : forall out,
+  (forall a, In a accs -> exists f, a = VFun f) ->
+  (fix over (accs : list value) (out : list value) : res (list value) :=
+     match accs with
+     | [] => Ok out
+     | a :: accs' =>
+         do accFn <- AsFunction a;
+         over accs' (fold_left (fun o val => set_add o (VFun (fun_add accFn key val))) fieldValues out)
+     end) accs out =
+  Ok (fold_left set_add
+        (flat_map (fun a => match a with VFun f => map (fun val => VFun (fun_add f key val)) fieldValues | _ => [] end) accs)
+        out).
+Proof.
+  induction accs as [|a accs IH]; intros out Hf; [reflexivity|].
+  destruct (Hf a (or_introl eq_refl)) as [f ->]. cbn [AsFunction bind flat_map].
+  rewrite IH by (intros; apply Hf; cbn; auto).
+  rewrite fold_left_app. f_equal. f_equal. apply fold_set_add_map.
+Qed.
+
+Lemma combine_app {A B} (l1 l2 : list A) (m1 m2 : list B) :
+  List.length l1 = List.length m1 -> combine (l1 ++ l2) (m1 ++ m2) = combine l1 m1 ++ combine l2 m2.
+Proof.
+  revert m1. induction l1 as [|a l1 IH]; intros [|b m1]; cbn; intros H; try discriminate; auto.
+  f_equal. apply IH. lia.
+Qed.
+
+(* extending every record by a fresh key *)
+Lemma extend_record f k val ckeys ccombo :
+  (forall a b, In (a, b) f -> fine a /\ fine b) -> NoDup (map canon (map fst f)) ->
+  fine k -> fine val -> ~ In (canon k) (map canon (map fst f)) ->
+  List.length ckeys = List.length ccombo ->
+  sort_dedup kv_cmp (map ckv f) = sort_dedup kv_cmp (combine ckeys ccombo) ->
+  (forall a b, In (a, b) (fun_add f k val) -> fine a /\ fine b) /\
+  NoDup (map canon (map fst (fun_add f k val))) /\
+  (forall c, In c (map canon (map fst (fun_add f k val))) <-> In c (map canon (map fst f)) \/ c = canon k) /\
+  sort_dedup kv_cmp (map ckv (fun_add f k val)) = sort_dedup kv_cmp (combine (ckeys ++ [canon k]) (ccombo ++ [canon val])).
+Proof.
+  intros Hf Nd Fk Fv Hfresh Hlen Hs.
+  assert (Rkeys : forall y, In y (map fst f) -> rep_ok y).
+  { intros y Hy. apply in_map_iff in Hy as ([a b] & <- & Hp). apply (Hf a b Hp). }
+  destruct (fun_add_rep f k val (fine_pairs_rep f Hf) (proj1 Fk) (proj1 Fv) Nd) as [Rr Nr].
+  split; [|split; [exact Nr|split]].
+  - intros a b Hin. apply fun_add_In in Hin as [Hin|[= -> ->]]; auto.
+  - intros c. rewrite fun_add_keys by (auto; apply Fk).
+    destruct (existsb (fun y => Equal y k) (map fst f)) eqn:E.
+    + apply set_has_In in E; auto; [|apply Fk]. contradiction.
+    + rewrite in_app_iff. cbn. intuition.
+  - apply kvsort_ext. intros p. rewrite <- ckvp_ckv, (fun_add_pairs f k val Rkeys (proj1 Fk) Nd), ckvp_ckv.
+    rewrite combine_app by exact Hlen. rewrite in_app_iff. cbn [combine In].
+    rewrite <- (kvsort_In (map ckv f)), Hs, kvsort_In. split.
+    + intros [[Hin _]| ->]; auto.
+    + intros [Hin|[<-|[]]]; auto. left. split; auto.
+      intros Hc. apply Hfresh. rewrite <- Hc, <- ckv_keys. apply in_map.
+      rewrite <- kvsort_In, Hs, kvsort_In. exact Hin.
+Qed.
+
+
+Lemma Forall2_len {A B} (R : A -> B -> Prop) l l' : Forall2 R l l' -> List.length l = List.length l'.
+Proof. induction 1; cbn; auto. Qed.
+
+Definition rs_inv (ckeys : list value) (sets : list (list value)) (acc : list value) : Prop :=
+  (forall a, In a acc -> rec_ok ckeys a) /\ NoDup (map canon acc) /\ List.length ckeys = List.length sets /\
+  (forall c, In c (map canon acc) <->
+             exists combo, Forall2 (fun x s => In x s) combo sets /\
+                           c = VFun (sort_dedup kv_cmp (combine ckeys (map canon combo)))).
+
+Lemma rs_inv_init : rs_inv [] [] [VFun []].
+Proof.
+  split; [|split; [|split]].
+  - intros a [<-|[]]. exists []. split; [reflexivity|]. split; [intros k v []|]. split; [constructor|]. intros c. cbn. tauto.
+  - cbn. constructor; [intros []|constructor].
+  - reflexivity.
+  - intros c. cbn. split.
+    + intros [<-|[]]. exists []. split; [constructor|reflexivity].
+    + intros (combo & H & ->). inversion H; subst. left. reflexivity.
+Qed.
+
+Lemma rec_ok_rep ckeys a : rec_ok ckeys a -> good a.
+Proof.
+  intros (f & -> & Hf & Nd & _). split.
+  - split; auto. apply All_In. intros [k v] Hin. destruct (Hf k v Hin) as [(Rk & _) (Rv & _)]. cbn; auto.
+  - cbn. apply All_In. intros [k v] Hin. destruct (Hf k v Hin) as [(_ & Bk & _) (_ & Bv & _)]. cbn; auto.
+Qed.
+
+Lemma rs_step ckeys sets acc key S :
+  rs_inv ckeys sets acc -> fine key -> ~ In (canon key) ckeys -> (forall v, In v S -> fine v) ->
+  rs_inv (ckeys ++ [canon key]) (sets ++ [S])
+    (fold_left set_add
+       (flat_map (fun a => match a with VFun f => map (fun val => VFun (fun_add f key val)) S | _ => [] end) acc) []).
+Proof.
+  intros (Hrec & Nd & Hlen & Hm) Fk Hfresh HS.
+  set (flat := flat_map (fun a => match a with VFun f => map (fun val => VFun (fun_add f key val)) S | _ => [] end) acc).
+  (* every element of flat *)
+  assert (Hflat : forall y, In y flat -> exists f val combo, In (VFun f) acc /\ In val S /\ y = VFun (fun_add f key val) /\
+                    Forall2 (fun x s => In x s) combo sets /\
+                    rec_ok (ckeys ++ [canon key]) y /\
+                    canon y = VFun (sort_dedup kv_cmp (combine (ckeys ++ [canon key]) (map canon (combo ++ [val]))))).
+  { intros y Hy. apply in_flat_map in Hy as (a & Ha & Hy).
+    destruct (Hrec a Ha) as (f & -> & Hf & Ndf & Hkeys).
+    apply in_map_iff in Hy as (val & <- & Hval).
+    assert (Hc : In (canon (VFun f)) (map canon acc)) by (apply in_map; auto).
+    apply Hm in Hc as (combo & Hcombo & Ec). rewrite canon_fun in Ec. injection Ec as Ec.
+    assert (Hl : List.length ckeys = List.length (map canon combo)).
+    { rewrite map_length, Hlen. symmetry. eapply Forall2_len; eauto. }
+    destruct (extend_record f key val ckeys (map canon combo) Hf Ndf Fk (HS val Hval)) as (E1 & E2 & E3 & E4); auto.
+    { rewrite Hkeys. exact Hfresh. }
+    exists f, val, combo. split; [auto|]. split; [auto|]. split; [reflexivity|]. split; [auto|]. split.
+    - exists (fun_add f key val). split; [reflexivity|]. split; [exact E1|]. split; [exact E2|]. intros c. split.
+      + intros Hc. apply E3 in Hc as [Hc| ->]; apply in_or_app; [left; apply Hkeys; auto|right; cbn; auto].
+      + intros Hc. apply E3. apply in_app_or in Hc as [Hc|[<-|[]]]; [left; apply Hkeys; auto|right; auto].
+    - rewrite canon_fun, E4, map_app. reflexivity. }
+  destruct (fold_set_add_rep flat [] (fun y H => match H with end)) as (I & R & N & M).
+  { intros y Hy. destruct (Hflat y Hy) as (_ & _ & _ & _ & _ & _ & _ & Hr & _). apply (rec_ok_rep _ _ Hr). }
+  { constructor. }
+  split; [|split; [exact N|split]].
+  - intros a Ha. apply I in Ha as [[]|Ha]. destruct (Hflat a Ha) as (_ & _ & _ & _ & _ & _ & _ & Hr & _). exact Hr.
+  - rewrite !app_length. cbn. lia.
+  - intros c. rewrite M. cbn [map In]. split.
+    + intros [[]|Hc]. apply in_map_iff in Hc as (y & <- & Hy).
+      destruct (Hflat y Hy) as (f & val & combo & _ & Hval & _ & Hcombo & _ & Ec).
+      exists (combo ++ [val]). split; auto. apply Forall2_app; auto.
+    + intros (combo' & Hc' & ->). right.
+      apply Forall2_app_inv_r in Hc' as (combo & c1 & Hcombo & H1 & ->).
+      inversion H1 as [|val s' c1' l' Hval Hn]; subst. inversion Hn; subst.
+      assert (Ha : In (VFun (sort_dedup kv_cmp (combine ckeys (map canon combo)))) (map canon acc)).
+      { apply Hm. exists combo. auto. }
+      apply in_map_iff in Ha as (a & Ea & Ha). destruct (Hrec a Ha) as (f & -> & _).
+      set (y := VFun (fun_add f key val)).
+      assert (Hy : In y flat).
+      { apply in_flat_map. exists (VFun f). split; auto. apply in_map_iff. exists val. auto. }
+      apply in_map_iff. exists y. split; auto.
+      destruct (Hflat y Hy) as (f' & val' & combo'' & Hf' & _ & Ey & Hcombo'' & _ & Ec).
+      (* the canonical form of y is determined by f, key, val *)
+      injection Ey as Ey.
+      destruct (Hrec (VFun f) Ha) as (f0 & [= <-] & Hf & Ndf & Hkeys).
+      assert (Hl : List.length ckeys = List.length (map canon combo)).
+      { rewrite map_length, Hlen. symmetry. eapply Forall2_len; eauto. }
+      rewrite canon_fun in Ea. injection Ea as Ea.
+      destruct (extend_record f key val ckeys (map canon combo) Hf Ndf Fk (HS val Hval)) as (_ & _ & _ & E4); auto.
+      { rewrite Hkeys. exact Hfresh. }
+      unfold y. rewrite canon_fun, E4, map_app. reflexivity.
+Qed.
+
+Lemma recordset_loop_spec pairs : forall ckeys sets acc,
+  rs_inv ckeys sets acc ->
+  (forall k v, In (k, v) pairs -> fine k /\ fine v) ->
+  NoDup (ckeys ++ map canon (map fst pairs)) ->
+  match recordset_loop pairs acc with
+  | Ok res => exists Ss, map snd pairs = map VSet Ss /\
+                         rs_inv (ckeys ++ map canon (map fst pairs)) (sets ++ Ss) res
+  | TypeErr => exists v, In v (map snd pairs) /\ forall xs, v <> VSet xs
+  | _ => False
+  end.
+Proof.
+  induction pairs as [|[key vs] pairs IH]; intros ckeys sets acc Hinv Hf Nd.
+  - cbn. exists []. split; auto. rewrite !app_nil_r. exact Hinv.
+  - destruct (Hf key vs (or_introl eq_refl)) as [Fk Fvs].
+    cbn [recordset_loop].
+    destruct (is_set vs) as [[S ->]|Hvs].
+    + cbn [AsSet bind].
+      rewrite over_loop.
+      2:{ intros a Ha. destruct Hinv as (Hrec & _). destruct (Hrec a Ha) as (f & -> & _). eauto. }
+      cbn [bind].
+      assert (Hfresh : ~ In (canon key) ckeys).
+      { cbn in Nd. apply NoDup_remove_2 in Nd. intros Hc. apply Nd. apply in_or_app. auto. }
+      pose proof (rs_step ckeys sets acc key S Hinv Fk Hfresh (proj1 (fine_set S Fvs))) as Hstep.
+      specialize (IH (ckeys ++ [canon key]) (sets ++ [S]) _ Hstep (fun k v H => Hf k v (or_intror H))).
+      cbn [map fst] in Nd. rewrite <- app_assoc in IH. cbn [app] in IH. specialize (IH Nd).
+      destruct (recordset_loop pairs _) as [res| | |]; auto.
+      * destruct IH as (Ss & E & Hi). exists (S :: Ss). cbn [map snd]. split; [f_equal; exact E|].
+        rewrite <- app_assoc in Hi. exact Hi.
+      * destruct IH as (v & Hv & Hn). exists v. split; auto. cbn. auto.
+    + assert (AsSet vs = TypeErr) as -> by (destruct vs; try reflexivity; exfalso; eapply Hvs; reflexivity).
+      cbn. exists vs. auto.
+Qed.
+
+Lemma sets_of_VSet Ss : sets_of (map VSet Ss) = Some Ss.
+Proof. induction Ss as [|s Ss IH]; cbn; auto. rewrite IH. reflexivity. Qed.
+
+Lemma sets_of_nonset vs v : In v vs -> (forall xs, v <> VSet xs) -> sets_of vs = None.
+Proof.
+  induction vs as [|w vs IH]; cbn; [tauto|]. intros [->|Hin] Hn.
+  - destruct v; try reflexivity. exfalso. eapply Hn. reflexivity.
+  - destruct w; try reflexivity. rewrite IH; auto.
+Qed.
+
+Lemma norm_is_set v xs : norm v = VSet xs -> exists ys, v = VSet ys.
+Proof. apply norm_set. Qed.
+
+Theorem recordset_lemma pairs :
+  (forall k v, In (k, v) pairs -> fine k /\ fine v) -> NoDup (map canon (map fst pairs)) ->
+  allowed False (spec_recordset (map (fun p => norm (fst p)) pairs) (map (fun p => norm (snd p)) pairs))
+          (MakeRecordSet pairs).
+Proof.
+  intros Hf Nd. unfold MakeRecordSet, spec_recordset.
+  pose proof (recordset_loop_spec pairs [] [] [VFun []] rs_inv_init Hf Nd) as HL.
+  destruct (recordset_loop pairs [VFun []]) as [res| | |]; try contradiction.
+  - destruct HL as (Ss & E & (Hrec & Ndr & Hlen & Hm)). cbn [app] in *.
+    assert (Fs : forall s, In s Ss -> fine (VSet s)).
+    { intros s Hs. assert (Hin : In (VSet s) (map snd pairs)) by (rewrite E; apply in_map; auto).
+      apply in_map_iff in Hin as ([k v] & Ev & Hp). cbn in Ev. subst v. apply (Hf k _ Hp). }
+    assert (Esets : map (fun p => norm (snd p)) pairs = map VSet (map (fun s => sort_dedup vcmp (map canon s)) Ss)).
+    { rewrite <- (map_map snd norm), E, !map_map. apply map_ext_in. intros s Hs. apply norm_fine_set, Fs, Hs. }
+    rewrite Esets, sets_of_VSet. cbn [bind].
+    assert (Ekeys : map (fun p => norm (fst p)) pairs = map canon (map fst pairs)).
+    { rewrite map_map. apply map_ext_in. intros [k v] Hp. cbn. apply norm_plain. apply (Hf k v Hp). }
+    rewrite Ekeys.
+    apply set_result_norm; auto.
+    + intros y Hy. apply (rec_ok_rep _ _ (Hrec y Hy)).
+    + intros c. rewrite !in_map_iff. split.
+      * intros (a & <- & Ha).
+        destruct (Hrec a Ha) as (f & -> & Hff & _).
+        assert (Hc : In (canon (VFun f)) (map canon res)) by (apply in_map; auto).
+        apply Hm in Hc as (combo & Hcombo & Ec). rewrite canon_fun in Ec. injection Ec as Ec.
+        exists (map canon combo). split.
+        -- rewrite norm_fun_elems by (intros k v Hin; destruct (Hff k v Hin) as [(_ & _ & Pk) (_ & _ & Pv)]; auto).
+           unfold mk_graph. rewrite Ec. reflexivity.
+        -- apply in_sproduct, forall2_in_canon. exists combo. auto.
+      * intros (cc & <- & Hcc). apply in_sproduct, forall2_in_canon in Hcc as (combo & Hcombo & <-).
+        assert (Hc : In (VFun (sort_dedup kv_cmp (combine (map canon (map fst pairs)) (map canon combo)))) (map canon res)).
+        { apply Hm. exists combo. auto. }
+        apply in_map_iff in Hc as (a & Ea & Ha). exists a. split; auto.
+        destruct (Hrec a Ha) as (f & -> & Hff & _). rewrite canon_fun in Ea. injection Ea as Ea.
+        rewrite norm_fun_elems by (intros k v Hin; destruct (Hff k v Hin) as [(_ & _ & Pk) (_ & _ & Pv)]; auto).
+        unfold mk_graph. rewrite Ea. reflexivity.
+  - destruct HL as (v & Hv & Hn). cbn [bind].
+    rewrite (sets_of_nonset _ (norm v)); [reflexivity| |].
+    + apply in_map_iff in Hv as (p & <- & Hp). apply in_map_iff. exists p. auto.
+    + intros xs E. apply norm_set in E as [ys ->]. eapply Hn. reflexivity.
+Qed.
+
+(* ------------------------------------------------------------------ [S -> T] *)
+Lemma family_members K T c :
+  In c (map (fun combo => mk_graph (combine K combo)) (sproduct (map (fun _ => T) K))) <->
+  exists l, map fst l = K /\ (forall p, In p l -> In (snd p) T) /\ c = mk_graph l.
+Proof.
+  rewrite in_map_iff. split.
+  - intros (combo & <- & Hc). apply in_sproduct in Hc.
+    assert (Hlen : List.length combo = List.length K).
+    { apply Forall2_len in Hc. rewrite map_length in Hc. exact Hc. }
+    exists (combine K combo). split; [|split; auto].
+    + clear Hc. revert combo Hlen. induction K as [|k K IH]; intros [|x combo] H; cbn in *; try discriminate; auto.
+      f_equal. apply IH. lia.
+    + intros [k x] Hp. cbn. apply in_combine_r in Hp.
+      clear Hlen. revert Hp. generalize dependent combo. induction K as [|k0 K IH]; intros combo Hc Hx; inversion Hc; subst; [destruct Hx|].
+      destruct Hx as [->|Hx]; auto. eapply IH; eauto.
+  - intros (l & <- & Hv & ->). exists (map snd l). split.
+    + f_equal. clear Hv. induction l as [|[k x] l IH]; cbn; auto. f_equal. exact IH.
+    + apply in_sproduct. rewrite map_map. clear -Hv. induction l as [|[k x] l IH]; cbn; constructor.
+      * apply (Hv (k, x)). cbn; auto.
+      * apply IH. intros p Hp. apply Hv. cbn; auto.
+Qed.
+
+Lemma family_perm K K' T : Permutation K K' -> forall c,
+  In c (map (fun combo => mk_graph (combine K combo)) (sproduct (map (fun _ => T) K))) ->
+  In c (map (fun combo => mk_graph (combine K' combo)) (sproduct (map (fun _ => T) K'))).
+Proof.
+  intros HP c. rewrite !family_members. intros (l & E & Hv & ->).
+  assert (HP' : Permutation K' (map fst l)) by (rewrite E; symmetry; exact HP).
+  apply Permutation_map_inv in HP' as (l3 & E3 & P3).
+  exists l3. split; auto. split.
+  - intros p Hp. apply Hv. eapply Permutation_in; [symmetry; exact P3|exact Hp].
+  - unfold mk_graph. f_equal. apply kvsort_ext. intros p. split; apply Permutation_in; auto. symmetry; auto.
+Qed.
+
+Theorem funset_lemma a b : fine a -> fine b -> allowed False (spec_funset (norm a) (norm b)) (MakeFunctionSet a b).
+Proof.
+  intros Fa Fb. unfold MakeFunctionSet.
+  destruct (is_set a) as [[s ->]|Ha].
+  - destruct (is_set b) as [[t ->]|Hb].
+    + cbn [AsSet bind]. destruct (fine_set s Fa) as [Hs Ns].
+      set (pairs := map (fun k => (k, VSet t)) s).
+      assert (HR : allowed False (spec_recordset (map (fun p => norm (fst p)) pairs) (map (fun p => norm (snd p)) pairs))
+                           (MakeRecordSet pairs)).
+      { apply recordset_lemma.
+        - intros k v Hin. apply in_map_iff in Hin as (k0 & [= <- <-] & Hk). split; auto.
+        - replace (map fst pairs) with s; [exact Ns|]. unfold pairs. rewrite map_map. cbn. symmetry. apply map_id. }
+      rewrite !norm_fine_set by auto. cbn [spec_funset].
+      set (S := sort_dedup vcmp (map canon s)) in *. set (T := sort_dedup vcmp (map canon t)) in *.
+      (* the spec enumerates the keys in sorted order, the code in iteration order: same family *)
+      assert (E : spec_recordset S (map (fun _ => VSet T) S) =
+                  spec_recordset (map (fun p => norm (fst p)) pairs) (map (fun p => norm (snd p)) pairs)).
+      { unfold pairs. rewrite !map_map. cbn [fst snd]. rewrite (norm_fine_set t Fb). fold T.
+        assert (Ek : map (fun x => norm x) s = map canon s) by (apply map_ext_in; intros x Hx; apply norm_plain, Hs, Hx).
+        rewrite Ek. unfold spec_recordset.
+        assert (forall (A : Type) (K : list A), sets_of (map (fun _ : A => VSet T) K) = Some (map (fun _ => T) K)) as Hso.
+        { intros A K. induction K as [|k K IH]; cbn; auto. rewrite IH. reflexivity. }
+        rewrite !Hso. f_equal. unfold mk_set. f_equal. apply vsort_ext. intros c.
+        assert (HP : Permutation S (map canon s)) by (apply vsort_perm; auto).
+        assert (Hsame : forall K : list value, map (fun _ : value => T) K = map (fun _ : value => T) K) by reflexivity.
+        replace (map (fun _ : value => T) s) with (map (fun _ : value => T) (map canon s)) by (rewrite map_map; reflexivity).
+        split; apply family_perm; auto. symmetry; auto. }
+      rewrite E. exact HR.
+    + assert (AsSet b = TypeErr) as -> by (destruct b; try reflexivity; exfalso; eapply Hb; reflexivity).
+      cbn [bind]. unfold spec_funset. cbn [norm].
+      destruct (norm b) eqn:E; try reflexivity. apply norm_set in E as [ys ->]. exfalso. eapply Hb. reflexivity.
+  - assert (AsSet a = TypeErr) as -> by (destruct a; try reflexivity; exfalso; eapply Ha; reflexivity).
+    cbn. unfold spec_funset. destruct (norm a) eqn:E; try reflexivity.
+    apply norm_set in E as [ys ->]. exfalso. eapply Ha. reflexivity.
+Qed.
